@@ -865,6 +865,7 @@ func runC12(o *Out, rng *RNG, tier string, replay string) {
 		nRace = 100000
 	}
 	c12ChildRace(o, rng, nRace)
+	scopeNestedIsolationProbe(o, "C12")
 
 	// ---- (c3) the anchor termexec/run.go: commands dispatched on a scope that has ended / ends meanwhile
 	nTerm := 300
